@@ -108,6 +108,9 @@ enum Alphabet {
     /// representative operations at the front, in the middle and at the back
     /// of larger vectors
     Large,
+    /// no source mutators at all (configurations that are about the initial
+    /// values of a very large vector)
+    NoOps,
 }
 
 #[derive(Clone, Debug)]
@@ -142,6 +145,13 @@ struct Cfg {
     /// Two stages; the second one is stacked on the first by a `Stack` token
     /// after the first has been polled (it must be a dynamic adapter value).
     late_stack: bool,
+    /// `pop_front` calls made after the initial `append` and before anybody
+    /// subscribes: the vector's first chunk then does not start at slot 0
+    /// (matters for vectors of more than 64 items, imbl's tree mode)
+    pre_pop_front: u8,
+    /// so many further initial elements, all with key 0, after `init` (runs
+    /// of thousands of equal items)
+    init_run: u16,
     /// With `late_stack`: the `Stack` token does not drain the chain first, so
     /// the lower adapter may be in the middle of an input item (one of two
     /// diffs handed out, the other one parked) when the next stage is built on it.
@@ -302,6 +312,7 @@ fn ops_for(len: u8, cfg: &Cfg, out: &mut Vec<Tok>) {
             }
             out.push(Tok::Op(Op::Clear));
         }
+        Alphabet::NoOps => {}
         Alphabet::Reduced => {
             if room >= 2 {
                 out.push(Tok::Op(Op::Append(2, if nk > 1 { 1 } else { 0 })));
@@ -335,7 +346,15 @@ impl<E: El> Harness for AdpH<E> {
 
     fn init(&self, cfg: &Cfg) -> Model {
         let mut next_id = 0;
-        let vec = cfg.init.iter().map(|k| fresh(&mut next_id, *k)).collect();
+        let mut vec: Vec<Kid> = cfg.init.iter().map(|k| fresh(&mut next_id, *k)).collect();
+        for _ in 0..cfg.init_run {
+            vec.push(fresh(&mut next_id, 0));
+        }
+        for _ in 0..cfg.pre_pop_front {
+            if !vec.is_empty() {
+                vec.remove(0);
+            }
+        }
         Model {
             vec,
             txn: None,
@@ -426,7 +445,10 @@ impl<E: El> Harness for AdpH<E> {
                 r
             }
         };
-        if E::TRACKED && r.is_ok() {
+        // The element accounting is also made when an oracle of another
+        // property stopped the sequence (everything has been dropped by now):
+        // a wrong view and a leaked or twice-dropped value often come together.
+        if E::TRACKED && r.as_ref().map_or_else(|v| v.prop != "C20", |_| true) {
             let errs = el::reg_errors();
             if !errs.is_empty() {
                 return Err(Violation { prop: "C20", step: toks.len(), sig: "tracked-misuse".into(), detail: errs.join("; ") });
@@ -439,7 +461,9 @@ impl<E: El> Harness for AdpH<E> {
                     detail: format!("{} element instances still alive after everything was dropped", el::reg_live()),
                 });
             }
-            st.mark("tracked_sequences_balanced");
+            if r.is_ok() {
+                st.mark("tracked_sequences_balanced");
+            }
         }
         r
     }
